@@ -454,6 +454,8 @@ LAYOUTS = [
     # different file for includers in different directories
     ["app/main.pn", "lib/util.pn", "app/util.pn", "lib/helper.pn"],
     ["one/main.pn", "two/part.pn", "one/part.pn", "two/sub/part.pn"],
+    # the same base name nested below its sibling
+    ["app/main.pn", "app/plugins/config.pn", "app/config.pn", "lib/config.pn"],
     # long paths (module names are derived from them)
     ["a_rather_long_directory_name/with_another_level/the_main_module_of_the_program.pn",
      "a_rather_long_directory_name/with_another_level/a_helper_module_with_a_long_name.pn",
@@ -592,6 +594,8 @@ def random_split(program, rng, k=None):
     layout = rng.choice(LAYOUTS)
     if k == 4 and rng.random() < 0.4:
         layout = LAYOUTS[4]     # two directories with a `util.pn` each
+    elif k >= 3 and rng.random() < 0.2:
+        layout = LAYOUTS[6]     # `config.pn` next to `plugins/config.pn`
     files = layout[:k]
     assign = {}
     # every module gets at least one item
@@ -746,8 +750,25 @@ def negative_variants(split, rng, limit=None):
                 continue
             out.append({"module": m, "item": it.name, "kind": it.kind, "reason": reason,
                         "probe": probe, "expect_code": code})
+    # imports that must stay unresolved: the bare name of a file that only
+    # exists in another directory (never next to the includer, never at the root)
+    import os
+    for m in range(split.k):
+        d = os.path.dirname(split.files[m])
+        for t in range(split.k):
+            base = os.path.basename(split.files[t])
+            if t == m or base in split.files:
+                continue
+            sibling = os.path.join(d, base) if d else base
+            if sibling in split.files:
+                continue
+            out.append({"module": m, "item": base, "kind": "import", "reason": "unresolvable_import",
+                        "probe": None, "import_line": 'import "%s";\n' % base, "expect_code": 470})
+            break
     if limit is not None and len(out) > limit:
-        out = rng.sample(out, limit)
+        keep_imports = [x for x in out if x["kind"] == "import"][:1]
+        rest = [x for x in out if x["kind"] != "import"]
+        out = rng.sample(rest, min(len(rest), limit - len(keep_imports))) + keep_imports
     return out
 
 
